@@ -12,6 +12,8 @@ def run(tier, seed):
     out.append(relay.suite_churn(tier, seed, "sql", pid="C19"))
     from .. import extra
     out.append(extra.suite_stalled_reader(tier, seed))
+    out.append(extra.suite_kv_req_burst(tier, seed))
+    out.append(extra.suite_failing_query_answered(tier, seed))
     out.append(relay.suite_relay(tier, seed, "sql", n=25 if tier == "quick" else 200, hostile=True, label="hostile-mix", pid="C19"))
     return out
 
